@@ -100,6 +100,13 @@ def step (t : List String) : String :=
       let pths := (chunks (nAdj + 1) xs).map fun p => (p.headD 0, p.drop 1)
       showFloat (asianFastMC opsF (ic == 1) (r - q) v r t t0' dt k' mult s pths)
     | _, _, _ => "bad-op"
+  | "LBK" :: kind :: isCall :: ncol :: rest =>
+    match nat? isCall, nat? ncol, floats? rest with
+    | some ic, some nc, some (k :: hist :: df :: xs) =>
+      let pths := chunks nc xs
+      if kind == "FIX" then showFloat (lookbackMC (fixedLookbackPayoff opsF (ic == 1) k hist) df pths)
+      else showFloat (lookbackMC (floatLookbackPayoff opsF (ic == 1) hist) df pths)
+    | _, _, _ => "bad-op"
   | "UDT" :: n :: rest =>
     match nat? n, floats? rest with
     | some n, some (u :: xs) => showFloat (uniformToDefaultTime opsF u (xs.take n) (xs.drop n))
